@@ -65,12 +65,21 @@ func DrawCfg(r *sim.RNG) Cfg {
 	return c
 }
 
-const RootURL = "file:///w/api/root.json"
+// Prefix is the directory under which the simulated file documents live. It is a real,
+// empty directory that every simrun process creates and makes its working directory
+// (root's directory = Prefix/api), so that relative root spellings (C11) and the
+// "root document in the current directory" entry points (C10) see the same world.
+// No document is ever read from it: the loader is always the simulator's.
+const Prefix = "/tmp/verif-simfs/w"
+
+const RootDir = Prefix + "/api"
+
+const RootURL = "file://" + Prefix + "/api/root.json"
 
 var filePool = []string{
-	"file:///w/api/a.json", "file:///w/api/sub/b.json", "file:///w/api/sub/deep/c.json",
-	"file:///w/lib/d.json", "file:///e.json", "file:///w/api/sub/g.json", "file:///w/k.json",
-	"file:///w/api/dotted.name/m.v2.json",
+	"file://" + Prefix + "/api/a.json", "file://" + Prefix + "/api/sub/b.json", "file://" + Prefix + "/api/sub/deep/c.json",
+	"file://" + Prefix + "/lib/d.json", "file:///e.json", "file://" + Prefix + "/api/sub/g.json", "file://" + Prefix + "/k.json",
+	"file://" + Prefix + "/api/dotted.name/m.v2.json",
 }
 var httpPool = []string{"http://h.test/x/f.json", "http://h.test/x/y/i.json", "https://s.test/j.json", "http://h.test/n.json"}
 
